@@ -8,6 +8,7 @@ The ITERATION-COUNTING copy of the regenerated cell constructor (Generated/CellC
 import TonVerif.Generated.CellCtorCnt
 import TonVerif.Proofs.SrcW
 import TonVerif.Model.Cost
+import TonVerif.Proofs.Bits
 
 set_option linter.unusedSimpArgs false
 namespace TonVerif.Proofs.SrcCtorCnt
@@ -74,7 +75,10 @@ theorem calc_ticks (H : Bytes → Bytes) (mask : Nat) (ty : Int) (ds : List Nat)
 /-! ## one constructor call -/
 
 /-- levels the constructor hashes at most: `bit_length(level mask) + 1` iterations of `for li in range(level + 1)` -/
-def levelIters (ty : Int) (refs : List CellInfo) (bits : Bits) : Nat := Py.bitLength ((resolve_mask ty refs bits).getD 0) + 1
+def levelIters (ty : Int) (refs : List CellInfo) (bits : Bits) : Nat :=
+  match resolve_mask ty refs bits with
+  | none => 0          -- the constructor raised before `calculate_hashes`
+  | some m => Py.bitLength m + 1
 
 theorem init_ticks_j (H : Bytes → Bytes) (bits : Bits) (refs : List CellInfo) (ty : Int) (j : Nat) :
     (init_cnt H bits refs ty).2 j ≤ (if j = 0 then refs.length else 0) +
@@ -90,7 +94,7 @@ theorem init_ticks_j (H : Bytes → Bytes) (bits : Bits) (refs : List CellInfo) 
   rw [resolve_mask_cnt_erase] at hm
   refine le_bnd_w _ _ j _ 0 _ (calc_ticks H m ty [] [] refs _ bits j) (fun _ => ?_) ?_
   · exact le_bnd_opt _ _ _ _ fun _ => le_bnd_opt _ _ _ _ fun _ => le_bnd_opt _ _ _ _ fun _ => le_ret _ _ _
-  · simp only [levelIters, hm, Option.getD_some, Nat.add_zero]; exact Nat.le_refl _
+  · simp only [levelIters, hm, Nat.add_zero]; exact Nat.le_refl _
 
 theorem ctor_total (H : Bytes → Bytes) (bits : Bits) (refs : List CellInfo) (ty : Int) :
     (init_cnt H bits refs ty).2 0 + (init_cnt H bits refs ty).2 1 + (init_cnt H bits refs ty).2 2 + (init_cnt H bits refs ty).2 3 ≤
@@ -183,9 +187,133 @@ theorem levelIters_le (ty : Int) (refs : List CellInfo) (bits : Bits) (hty : ty 
     levelIters ty refs bits ≤ 4 := by
   unfold levelIters
   cases hm : resolve_mask ty refs bits with
-  | none => decide
+  | none => simp
   | some m =>
     have := bitLength_le3 m (resolve_mask_le ty refs bits hty hr m hm)
-    simp only [Option.getD_some]; omega
+    simp only; omega
+
+/-! ## pruned branches; masks that fit a byte (no hypothesis beyond what the constructor itself guarantees) -/
+
+theorem bitLength_le8 (m : Nat) (hm : m < 256) : Py.bitLength m ≤ 8 := by
+  unfold Py.bitLength
+  split
+  · omega
+  · rename_i h
+    have : Nat.log2 m < 8 := (Nat.log2_lt h).2 (by simpa using hm)
+    omega
+
+/-- a pruned branch: the constructor returns only without references, its level mask is the second data byte -/
+theorem resolve_mask_pruned (refs : List CellInfo) (bits : Bits) (m : Nat) (hm : resolve_mask 1 refs bits = some m) :
+    refs = [] ∧ m < 256 := by
+  unfold resolve_mask at hm
+  simp only [show ((1 : Int) = -1) = False by decide, if_false, if_true] at hm
+  split at hm
+  · cases hm
+  · rename_i h
+    refine ⟨by simpa using h, ?_⟩
+    unfold Py.intOfBits? at hm
+    split at hm
+    · cases hm
+    · simp only [Option.bind_some, Option.some.injEq] at hm
+      have h1 := TonVerif.Proofs.Bits.natOfBits_lt (Py.slice bits 8 16)
+      have h2 : (Py.slice bits 8 16).length ≤ 8 := by simp [Py.slice]; omega
+      have : 2 ^ (Py.slice bits 8 16).length ≤ 2 ^ 8 := Nat.pow_le_pow_right (by decide) h2
+      omega
+
+theorem or_fold256 : ∀ (refs : List CellInfo) (a : Nat), a < 256 → (∀ r ∈ refs, r.mask < 256) →
+    ∃ m, List.foldlM (m := Option) (fun (mask : Nat) (r : CellInfo) => some (mask ||| r.mask)) a refs = some m ∧ m < 256 := by
+  intro refs
+  induction refs with
+  | nil => intro a ha _; exact ⟨a, rfl, ha⟩
+  | cons r rs ih =>
+    intro a ha h
+    rw [List.foldlM_cons]
+    have hr := h r (by simp)
+    have : a ||| r.mask < 2 ^ 8 := Nat.or_lt_two_pow (by simpa using ha) (by simpa using hr)
+    exact ih _ (by simpa using this) (fun x hx => h x (by simp [hx]))
+
+/-- level masks fit a byte: closed under the constructor, for EVERY cell type -/
+theorem resolve_mask_le255 (ty : Int) (refs : List CellInfo) (bits : Bits) (hr : ∀ r ∈ refs, r.mask ≤ 255) (m : Nat)
+    (hm : resolve_mask ty refs bits = some m) : m ≤ 255 := by
+  by_cases hty : ty = 1
+  · subst hty; have := (resolve_mask_pruned refs bits m hm).2; omega
+  unfold resolve_mask at hm
+  have hr' : ∀ r ∈ refs, r.mask < 256 := fun r h => Nat.lt_succ_of_le (hr r h)
+  split at hm
+  · obtain ⟨m', h1, h2⟩ := or_fold256 refs 0 (by decide) hr'
+    simp only [h1, Option.bind_some, Option.some.injEq] at hm
+    omega
+  · split at hm
+    · cases h0 : refs[0]? with
+      | none => simp [h0] at hm
+      | some a =>
+        simp only [h0, Option.bind_some, Option.some.injEq] at hm
+        have := hr' a (List.mem_of_getElem? h0)
+        rw [← hm, Nat.shiftRight_eq_div_pow]; omega
+    · split at hm
+      · cases h0 : refs[0]? with
+        | none => simp [h0] at hm
+        | some a =>
+          cases h1 : refs[1]? with
+          | none => simp [h0, h1] at hm
+          | some b =>
+            simp only [h0, h1, Option.bind_some, Option.some.injEq] at hm
+            have ha := hr' a (List.mem_of_getElem? h0)
+            have hb := hr' b (List.mem_of_getElem? h1)
+            have : a.mask ||| b.mask < 2 ^ 8 := Nat.or_lt_two_pow (by simpa using ha) (by simpa using hb)
+            rw [← hm, Nat.shiftRight_eq_div_pow]; omega
+      · split at hm
+        · simp only [Option.some.injEq] at hm; omega
+        · cases hm
+
+theorem levelIters_le9 (ty : Int) (refs : List CellInfo) (bits : Bits) (hr : ∀ r ∈ refs, r.mask ≤ 255) :
+    levelIters ty refs bits ≤ 9 := by
+  unfold levelIters
+  cases hm : resolve_mask ty refs bits with
+  | none => simp
+  | some m =>
+    have := bitLength_le8 m (Nat.lt_succ_of_le (resolve_mask_le255 ty refs bits hr m hm))
+    simp only; omega
+
+/-- the mask stored in the constructed cell is the resolved one -/
+theorem init_mask (H : Bytes → Bytes) (bits : Bits) (refs : List CellInfo) (ty : Int) (out : CtorOut)
+    (h : init H bits refs ty = some out) : resolve_mask ty refs bits = some out.mask := by
+  unfold init at h
+  simp only [NullCell_init, Option.bind_some, Option.bind_eq_some_iff] at h
+  obtain ⟨m, hm, _, _, _, _, _, _, _, _, h⟩ := h
+  simp only [Option.some.injEq] at h
+  rw [← h]; exact hm
+
+/-- PRUNED BRANCH: the level loop starts at most `bit_length(mask byte) + 1 ≤ 9` iterations and no loop over the references runs at all -/
+theorem pruned_ticks (H : Bytes → Bytes) (bits : Bits) (refs : List CellInfo) :
+    (init_cnt H bits refs 1).2 1 ≤ levelIters 1 refs bits ∧ levelIters 1 refs bits ≤ 9 ∧
+    (init_cnt H bits refs 1).2 2 = 0 ∧ (init_cnt H bits refs 1).2 3 = 0 := by
+  have h1 := init_ticks_j H bits refs 1 1
+  have h2 := init_ticks_j H bits refs 1 2
+  have h3 := init_ticks_j H bits refs 1 3
+  simp only [if_true, show ((1:Nat) = 0) = False by decide, show ((1:Nat) = 2) = False by decide, show ((1:Nat) = 3) = False by decide,
+    show ((2:Nat) = 0) = False by decide, show ((2:Nat) = 1) = False by decide, show ((2:Nat) = 3) = False by decide,
+    show ((3:Nat) = 0) = False by decide, show ((3:Nat) = 1) = False by decide, show ((3:Nat) = 2) = False by decide,
+    if_false, Nat.add_zero, Nat.zero_add, Nat.mul_zero] at h1 h2 h3
+  have hz : levelIters 1 refs bits * refs.length = 0 ∧ levelIters 1 refs bits ≤ 9 := by
+    unfold levelIters
+    cases hm : resolve_mask 1 refs bits with
+    | none => simp
+    | some m =>
+      obtain ⟨hr, hm'⟩ := resolve_mask_pruned refs bits m hm
+      have := bitLength_le8 m hm'
+      simp only [hr, List.length_nil, Nat.mul_zero, true_and]; omega
+  exact ⟨h1, hz.2, by omega, by omega⟩
+
+/-- one constructor call on children whose masks fit a byte (true of every cell any constructor call returned): ≤ 9 level iterations,
+`≤ 9 + 19·len(refs)` loop iterations -/
+theorem ctor_le_any (H : Bytes → Bytes) (bits : Bits) (refs : List CellInfo) (ty : Int) (hr : ∀ r ∈ refs, r.mask ≤ 255) :
+    (init_cnt H bits refs ty).2 0 + (init_cnt H bits refs ty).2 1 + (init_cnt H bits refs ty).2 2 + (init_cnt H bits refs ty).2 3 ≤
+      9 + 19 * refs.length := by
+  refine Nat.le_trans (ctor_total H bits refs ty) ?_
+  unfold Cost.ctorSteps
+  have hl := levelIters_le9 ty refs bits hr
+  have : levelIters ty refs bits * (1 + 2 * refs.length) ≤ 9 * (1 + 2 * refs.length) := Nat.mul_le_mul_right _ hl
+  omega
 
 end TonVerif.Proofs.SrcCtorCnt
